@@ -605,10 +605,15 @@ func (g *lgen) stmt() {
 
 // Resplit cuts the text a + ":" + b at another colon: (x:y, z) -> (x, y:z).
 func Resplit(r *rng.R, a, b string) (string, string, bool) {
-	joined := a + ":" + b
+	return ResplitSep(r, a, b, ':')
+}
+
+// ResplitSep is Resplit for another joining character (':', '-', '_').
+func ResplitSep(r *rng.R, a, b string, sep byte) (string, string, bool) {
+	joined := a + string(sep) + b
 	var cuts []int
 	for i := 0; i < len(joined); i++ {
-		if joined[i] == ':' && i != len(a) && i > 0 && i < len(joined)-1 {
+		if joined[i] == sep && i != len(a) && i > 0 && i < len(joined)-1 && joined[i-1] != ':' && joined[i+1] != ':' {
 			cuts = append(cuts, i)
 		}
 	}
@@ -633,8 +638,12 @@ func (g *lgen) alignedSend() {
 	for i := 0; i < k; i++ {
 		s, d := g.account(), g.account()
 		if i > 0 && g.r.Chance(2, 3) {
-			if s2, d2, ok := Resplit(g.r, ps, pd); ok {
-				s, d = s2, d2
+			// the same text joined by ':', '-' or '_' and cut at another place
+			for _, sep := range []byte{":-_"[g.r.Intn(3)], ':', '-', '_'} {
+				if s2, d2, ok := ResplitSep(g.r, ps, pd, sep); ok {
+					s, d = s2, d2
+					break
+				}
 			}
 		}
 		if seen[s] || s == "world" || d == "world" {
